@@ -11,8 +11,8 @@
 (***************************************************************************)
 EXTENDS Naturals, Sequences, TLC, Json
 
-VARIABLES meta, target, install, pth, builtin, pkg, onward
-vars == <<meta, target, install, pth, builtin, pkg, onward>>
+VARIABLES meta, target, install, pth, builtin, pkg, onward, confplug
+vars == <<meta, target, install, pth, builtin, pkg, onward, confplug>>
 
 Init == /\ meta \in {"dist-info", "egg-info"}
         /\ target \in {"module", "package", "missing"}
@@ -32,6 +32,10 @@ Init == /\ meta \in {"dist-info", "egg-info"}
         /\ onward \in {"none", "star_rel", "star_abs", "plugins"}
         /\ (target = "missing" => onward = "none")
         /\ (target = "package" => onward # "star_rel")
+        \* the workspace's own conftest.py names a module of the editable install in `pytest_plugins` ("extfx.db": the import
+        \* package is called otherwise than the distribution); resolved through the install's source root OUTSIDE the workspace
+        /\ confplug \in BOOLEAN
+        /\ (confplug => install \in {"editable_out", "editable_sibling"})
 Next == UNCHANGED vars
 Spec == Init /\ [][Next]_vars
 
@@ -43,10 +47,11 @@ ClassOf == CASE install = "regular" -> "third"
 Expect == [plug_fx |-> IF target = "missing" THEN "absent" ELSE ClassOf,
            sub_fx |-> IF target = "package" THEN ClassOf ELSE "absent",
            builtin_fx |-> IF builtin THEN "third" ELSE "absent",
-           imp_fx |-> IF target # "missing" /\ onward # "none" THEN ClassOf ELSE "absent"]
+           imp_fx |-> IF target # "missing" /\ onward # "none" THEN ClassOf ELSE "absent",
+           ext_fx |-> IF confplug THEN "third" ELSE "absent"]
 
 \* third-party fixtures are never project fixtures
 ThirdNeverProject == \A n \in DOMAIN Expect : Expect[n] # "project"
 EmitCase == PrintT("CASE " \o ToJson([meta |-> meta, target |-> target, install |-> install, pth |-> pth,
-                                     builtin |-> builtin, pkg |-> pkg, onward |-> onward, expect |-> Expect]))
+                                     builtin |-> builtin, pkg |-> pkg, onward |-> onward, confplug |-> confplug, expect |-> Expect]))
 =============================================================================
